@@ -22,7 +22,21 @@ type decProp struct {
 	finish func(dc *DCase, st *core.Stats, before map[string]int64) bool
 }
 
-func (d *decProp) Plan(tier string, seed int64) []core.Segment { return d.kinds(tier) }
+func (d *decProp) Plan(tier string, seed int64) []core.Segment {
+	segs := d.kinds(tier)
+	// two objects whose histories are interleaved operation by operation
+	// (small geometries, and a few big ones)
+	m := tierScale(tier, 30)
+	segs = append(segs, core.Segment{Kind: "duo:buffer", N: 1500 * m}, core.Segment{Kind: "duo:decoder", N: 1000 * m},
+		core.Segment{Kind: "bigduo:buffer", N: 30 * m, Chunk: 3}, core.Segment{Kind: "bigduo:decoder", N: 20 * m, Chunk: 3})
+	return segs
+}
+
+// DuoDCase: two decoder histories on two objects, interleaved as Sched says.
+type DuoDCase struct {
+	Sub   [2]DCase `json:"sub"`
+	Sched []byte   `json:"sched"`
+}
 
 // CaseCPU bounds the CPU time of one decoder history.
 func (d *decProp) CaseCPU(tier string) int { return 120 }
@@ -49,6 +63,35 @@ func (d *decProp) Gen(kind string, idx int64, seed int64, tier string) core.Case
 		s = 0
 	}
 	r := core.Rand(s, d.id, kind, idx)
+	if class, sut := splitKind(kind); class == "duo" || class == "bigduo" {
+		var duo DuoDCase
+		for g := 0; g < 2; g++ {
+			k := sut
+			if class == "bigduo" {
+				k = "big:" + sut
+			}
+			dc := d.genC(r, k, idx+int64(g)*7, tier)
+			dc.Rich = dc.SUT == "decoder" && (idx+int64(g))%3 == 1
+			if g == 1 && r.Intn(2) == 0 {
+				// same geometry as the first object, or a smaller buffer
+				dc.WS, dc.BS = duo.Sub[0].WS, duo.Sub[0].BS
+				if r.Intn(2) == 0 && dc.BS > dc.WS+2 && dc.WS > 0 {
+					dc.BS = dc.WS + 1 + r.Intn(dc.BS-dc.WS-1)
+				}
+			}
+			// rejected re-initialisations in between: they must leave the
+			// object as it was
+			for j, n := 0, r.Intn(3); j < n && len(dc.Ops) > 1; j++ {
+				at := 1 + r.Intn(len(dc.Ops)-1)
+				bad := DOp{K: "badinit", Re: true, W2: 5 + r.Intn(20), B2: 1 + r.Intn(5)}
+				dc.Ops = append(dc.Ops[:at], append([]DOp{bad}, dc.Ops[at:]...)...)
+			}
+			duo.Sub[g] = dc
+		}
+		duo.Sched = make([]byte, 32)
+		r.Read(duo.Sched)
+		return core.MkCase(d.id, kind, idx, seed, tier, duo)
+	}
 	dc := d.genC(r, kind, idx, tier)
 	dc.Rich = dc.SUT == "decoder" && idx%3 == 1
 	return core.MkCase(d.id, kind, idx, seed, tier, dc)
@@ -71,6 +114,20 @@ func snapshot(st *core.Stats, names ...string) map[string]int64 {
 }
 
 func (d *decProp) Run(c *core.Case, st *core.Stats) []core.Violation {
+	if class, _ := splitKind(c.Kind); class == "duo" || class == "bigduo" {
+		duo, err := decode[DuoDCase](c)
+		if err != nil {
+			return []core.Violation{core.V(c, "harness", "bad case: %v", err)}
+		}
+		f, g := RunDecoderDuo([2]*DCase{&duo.Sub[0], &duo.Sub[1]}, duo.Sched, st, d.owned)
+		if f != nil {
+			dc := &duo.Sub[g]
+			return []core.Violation{core.V(c, f.Class, "%s W=%d B=%d, object %d of two whose histories are interleaved (the other: W=%d B=%d), op %d (%s): %s", dc.SUT, dc.WS, dc.BS, g, duo.Sub[1-g].WS, duo.Sub[1-g].BS, f.At, opName(dc, f.At), f.Msg)}
+		}
+		st.Inc("interleaved_history_pairs")
+		st.NonTrivial(c)
+		return nil
+	}
 	dc, err := decode[DCase](c)
 	if err != nil {
 		return []core.Violation{core.V(c, "harness", "bad case: %v", err)}
@@ -1121,6 +1178,53 @@ func (p *c07prop) Run(c *core.Case, st *core.Stats) []core.Violation {
 		// reuses for every chunk (with a few bytes of spare capacity), as a
 		// copy loop does; Parse until the buffer is drained, Shrink, go on
 		st.Inc("parser_streams_fed_through_write")
+		// a second parser with the same configuration works through another
+		// stream (the input reversed) in between, round by round
+		psB, _ := NewParserFor(cc.Cfg)
+		streamB := make([]byte, len(cc.Stream))
+		for j, x := range cc.Stream {
+			streamB[len(streamB)-1-j] = x
+		}
+		var blocksB []lz.Block
+		posB, iB := 0, 0
+		emptyB := true
+		roundB := func() {
+			if psB == nil {
+				return
+			}
+			if emptyB {
+				// refill (after a Shrink) only when everything is parsed
+				psB.P.Shrink()
+				if posB >= len(streamB) {
+					return
+				}
+				n := cc.Chunk
+				if n > len(streamB)-posB {
+					n = len(streamB) - posB
+				}
+				k, _ := psB.P.Write(streamB[posB : posB+n])
+				if k < 0 || k > n {
+					panic(fmt.Sprintf("Write returned %d for %d bytes", k, n))
+				}
+				posB += k
+				emptyB = false
+			}
+			// one or two blocks per turn: data stays unparsed across the turns
+			// of the other parser
+			for j := 0; j < 1+iB%2; j++ {
+				var blk lz.Block
+				_, err := psB.P.Parse(&blk, cc.Flags[iB%len(cc.Flags)])
+				iB++
+				if err != nil {
+					emptyB = true
+					break
+				}
+				blocksB = append(blocksB, blk)
+				if iB > 4*len(streamB)+16 {
+					panic("second parser does not finish")
+				}
+			}
+		}
 		perr = call(func() {
 			buf := make([]byte, cc.Chunk, cc.Chunk+8)
 			pos, i := 0, 0
@@ -1140,6 +1244,7 @@ func (p *c07prop) Run(c *core.Case, st *core.Stats) []core.Violation {
 					}
 				}
 				for {
+					roundB()
 					var blk lz.Block
 					_, err := ps.P.Parse(&blk, cc.Flags[i%len(cc.Flags)])
 					i++
@@ -1155,12 +1260,40 @@ func (p *c07prop) Run(c *core.Case, st *core.Stats) []core.Violation {
 					}
 				}
 				if pos >= len(cc.Stream) {
+					for g := 0; (posB < len(streamB) || !emptyB) && g < 8*len(streamB)+64; g++ {
+						roundB()
+					}
 					return
 				}
 				ps.P.Shrink()
 			}
 			panic("parser does not finish")
 		})
+		if perr == nil && psB != nil && posB >= len(streamB) && emptyB {
+			// the second stream through a Decoder with the same window
+			st.Inc("second_parser_streams")
+			w := &planWriter{}
+			d, derr := lz.NewDecoder(w, lz.DecoderConfig{WindowSize: psB.WindowSize})
+			if derr == nil {
+				var werr error
+				at := -1
+				pv := call(func() {
+					for bi, blk := range blocksB {
+						w.begin(int(blk.Len()))
+						if _, _, _, werr = d.WriteBlock(blk); werr != nil {
+							at = bi
+							return
+						}
+					}
+					w.begin(0)
+					werr = d.Flush()
+				})
+				known := werr != nil && errIs(werr, errStrMatchLen)
+				if pv == nil && !known && (werr != nil || !bytes.Equal(w.accepted, streamB)) {
+					return []core.Violation{core.V(c, "output-differs", "%s cfg=%+v: of two parsers with this configuration that are fed alternately (Write from a reused buffer, Parse, Shrink), the second one's blocks give %d bytes through Decoder{W=%d} (error %v at block %d), its input has %d (common prefix %d)", cc.Cfg.Type, cc.Cfg, len(w.accepted), psB.WindowSize, werr, at, len(streamB), commonPrefix(w.accepted, streamB))}
+				}
+			}
+		}
 	} else {
 		perr = call(func() {
 			for i := 0; ; i++ {
